@@ -66,3 +66,34 @@ __CPROVER_assigns(g_dcalls)
 __CPROVER_ensures(g_dcalls == 1)                                                                          /*@ob C05.defer-action-stores-the-event */
 ;
 #endif
+/* ---- front/state_machine_def.hpp: the basic front-end's row kinds (row, a_row, g_row, a_irow, irow, g_irow): action_call / guard_call
+   invoke the member function the row names, once, on the machine, with the event; action rows answer HANDLED_TRUE ---- */
+#if UNIT_BASIC_ACTION || UNIT_BASIC_GUARD
+extern const type_t action, guard;
+void call_member_action(fsm_t* fsm, type_t mfp, event_t evt)                   /* (fsm.*action)(evt) */
+__CPROVER_requires(mfp == action && g_acalls == 0 && fsm == g_fsm)               /*@ob C02,C14.the-rows-action-member-is-called-exactly-once-on-the-machine */
+__CPROVER_requires(EV_EQ(evt, g_evt))                                             /*@ob C14,C18.behaviour-gets-the-event-unchanged */
+__CPROVER_assigns(g_acalls)
+__CPROVER_ensures(g_acalls == 1)
+;
+_Bool call_member_guard(fsm_t* fsm, type_t mfp, event_t evt)                    /* (fsm.*guard)(evt) */
+__CPROVER_requires(mfp == guard && g_gcalls == 0 && fsm == g_fsm)                /*@ob C02,C14.the-rows-guard-member-is-called-exactly-once-on-the-machine */
+__CPROVER_requires(EV_EQ(evt, g_evt))                                             /*@ob C14,C18.behaviour-gets-the-event-unchanged */
+__CPROVER_assigns(g_gcalls)
+__CPROVER_ensures(g_gcalls == 1 && __CPROVER_return_value == g_guard_answer)
+;
+#endif
+#if UNIT_BASIC_ACTION
+HandledEnum basic_action_call(fsm_t* fsm, event_t evt)
+__CPROVER_requires(fsm == g_fsm && EV_EQ(evt, g_evt) && g_acalls == 0)
+__CPROVER_assigns(g_acalls)
+__CPROVER_ensures(g_acalls == 1 && __CPROVER_return_value == HANDLED_TRUE)                               /*@ob C02,C14.action-row-runs-its-action-once-and-answers-true */
+;
+#endif
+#if UNIT_BASIC_GUARD
+_Bool basic_guard_call(fsm_t* fsm, event_t evt)
+__CPROVER_requires(fsm == g_fsm && EV_EQ(evt, g_evt) && g_gcalls == 0)
+__CPROVER_assigns(g_gcalls)
+__CPROVER_ensures(g_gcalls == 1 && __CPROVER_return_value == g_guard_answer)                              /*@ob C14.row-guard-is-the-members-answer */
+;
+#endif
